@@ -551,3 +551,5 @@ SUBS = [
     Sub("other", lambda tier: other_cases(tier), check_other, quick=300, thorough=1500),
     Sub("ticks", lambda tier: tick_cases(tier), check_ticks, quick=600, thorough=4000),
 ]
+
+RULE += ' Also: density=True with cumulative=True (heights proportional to the cumulative sums); maps with a cell pushed below zero by a negative fill weight.'
